@@ -35,8 +35,8 @@ META = {
                  "implementation + two-process (Pydantic / fallback) differential correspondence",
     "design_ref": "DESIGN.md section 6 (C02)",
 }
-GEN = []
-TARGETS = ["Base/Json", "Base/Envelope", "Base/JsonSexp", "Spec/C02", "Model/Envelope", "Proofs/JsonFacts", "Proofs/Envelope",
+GEN = ["EnvelopeKindGen.v"]
+TARGETS = ["Base/Json", "Base/Envelope", "Base/JsonSexp", "Spec/C02", "Model/Envelope", "Proofs/JsonFacts", "Proofs/Envelope", "Gen/EnvelopeKindGen", "Proofs/EnvelopeKind",
            "Drv/C02", "History/C02_prefix", "Props/C02"]
 PID = "C02"
 
